@@ -94,6 +94,8 @@ def lnStep (ls : LnSt) : List String → Option (LnSt × String)
     | .error err => pure ({ ls with names := n }, showNErr err)
   -- a refusal for a reason outside this model (priority rule between competitors: C14): no effect
   | "LN-other" :: _ => some (ls, "refused-other")
+  -- re-delivery of a block that is already pooled ("account-block is already inserted"): success, no effect
+  | "LN-same" :: _ => some (ls, "ok")
   | "LN-mom" :: k :: rest => do
     let k ← k.toNat?
     let (n, content) ← lnParseContent ls.names k rest
